@@ -29,8 +29,9 @@
 #define MAXP 512
 #define NMASK 12
 #define NMODE 3 /* 0 plain, 1 fitting(16), 2 counting(8) */
-#define BUFSZ 8192
+#define BUFSZ 32768
 
+static FILE *res; /* results go here (the original stdout); stdout itself is /dev/null: the library's debug output lands there */
 static char *prog[MAXP];
 static int nprog;
 
@@ -49,18 +50,43 @@ static uint64_t fnv(const uint8_t *b, long n) {
   return h;
 }
 
-static void apply_mask(assemblyline_t al, int m) {
-  asm_mov_imm(al, (enum asm_opt)(m / 4));
-  asm_sib_index_base_swap(al, (enum asm_opt)((m / 2) % 2));
-  asm_sib_no_base(al, (enum asm_opt)(m % 2));
+static void apply_mask(assemblyline_t al, int m, int grouped) {
+  int mov = m / 4, swap = (m / 2) % 2, nobase = m % 2;
+  /* the same configuration through the grouping setters where they can express it */
+  if (grouped && mov == swap && swap == nobase) {
+    asm_set_all(al, (enum asm_opt)mov);
+    return;
+  }
+  asm_mov_imm(al, (enum asm_opt)mov);
+  if (grouped && swap == nobase) {
+    asm_sib(al, (enum asm_opt)swap);
+    return;
+  }
+  asm_sib_index_base_swap(al, (enum asm_opt)swap);
+  asm_sib_no_base(al, (enum asm_opt)nobase);
 }
 
+/* "via": the same operation through other parts of the API - every result must still equal the single-threaded reference
+ *   via & 3 : 0 string entry points, 1 file entry points (a thread-private file), 2 the deprecated aliases
+ *   via & 4 : options through asm_set_all / asm_sib where they can express the configuration
+ *   via & 8 : debug output on during the call (stdout is /dev/null)
+ *   via & 16: afterwards asm_create_bin_file to a thread-private path, read back and compared with the code */
+static const char *tdir; /* THREADS_DIR: where the thread-private files live; unset = string entry points only */
+static int big_ext_only; /* THREADS_BIG_EXT_ONLY: long programs run on caller buffers only (ThreadSanitizer does not follow mremap) */
+#pragma GCC diagnostic ignored "-Wdeprecated-declarations"
+
 static void one(int p, int m, int mode, int internal, uint8_t *buf,
-                struct ref *out, unsigned *rs, int yields) {
+                struct ref *out, unsigned *rs, int yields, int via, long id) {
+  if (!tdir)
+    via &= ~(3 | 16);
+  if ((via & 3) == 3)
+    via &= ~1;
   assemblyline_t al = asm_create_instance(internal ? NULL : buf, BUFSZ);
   if (yields && (rand_r(rs) & 3) == 0)
     sched_yield();
-  apply_mask(al, m);
+  apply_mask(al, m, via & 4);
+  if (via & 8)
+    asm_set_debug(al, true);
   if (mode == 1)
     asm_set_chunk_size(al, 16);
   if (yields && (rand_r(rs) & 7) == 0) {
@@ -68,18 +94,47 @@ static void one(int p, int m, int mode, int internal, uint8_t *buf,
     nanosleep(&ts, NULL);
   }
   int count = -1, rc;
-  if (mode == 2) {
+  char path[600];
+  if ((via & 3) == 1) {
+    snprintf(path, sizeof path, "%s/t%d-%ld.asm", tdir, (int)getpid(), id);
+    FILE *f = fopen(path, "w");
+    if (f) {
+      fwrite(prog[p], 1, strlen(prog[p]), f);
+      fclose(f);
+    }
+    rc = mode == 2 ? asm_assemble_file_counting_chunks(al, path, 8, &count) : asm_assemble_file(al, path);
+    unlink(path);
+  } else if (mode == 2) {
     char *copy = strdup(prog[p]);
-    rc = asm_assemble_string_counting_chunks(al, copy, 8, &count);
+    rc = (via & 3) == 2 ? assemble_string_counting_chunks(al, copy, 8, &count)
+                        : asm_assemble_string_counting_chunks(al, copy, 8, &count);
     free(copy);
   } else
-    rc = asm_assemble_str(al, prog[p]);
+    rc = (via & 3) == 2 ? assemble_str(al, prog[p]) : asm_assemble_str(al, prog[p]);
   out->rc = rc;
   out->off = asm_get_offset(al);
   out->count = count;
   out->hash = (rc == 0 && out->off >= 0 && (internal || out->off <= BUFSZ))
                   ? fnv(asm_get_code(al), out->off)
                   : 0;
+  if ((via & 16) && rc == 0 && out->off >= 0) {
+    /* the binary file must hold exactly this instance's code */
+    snprintf(path, sizeof path, "%s/t%d-%ld.bin", tdir, (int)getpid(), id);
+    int brc = asm_create_bin_file(al, path);
+    long n = -1;
+    uint64_t h = 0;
+    FILE *f = fopen(path, "rb");
+    if (f) {
+      uint8_t *tmp = malloc((size_t)out->off + 16);
+      n = (long)fread(tmp, 1, (size_t)out->off + 16, f);
+      fclose(f);
+      h = fnv(tmp, n);
+      free(tmp);
+      unlink(path);
+    }
+    if (brc != 0 || n != out->off || h != out->hash)
+      out->rc = 1000 + (brc != 0); /* shows as a mismatch with the reference */
+  }
   if (yields && (rand_r(rs) & 3) == 0)
     sched_yield();
   asm_destroy_instance(al);
@@ -104,8 +159,13 @@ static void *worker(void *arg) {
   for (int it = 0; it < iters; it++) {
     int p = rand_r(&rs) % nprog, m = rand_r(&rs) % NMASK, mode = rand_r(&rs) % NMODE;
     int internal = (rand_r(&rs) & 3) == 0;
+    if (big_ext_only && strlen(prog[p]) > 8000)
+      internal = 0;
+    int via = (rand_r(&rs) >> 3) & 31;
+    if ((rand_r(&rs) & 3) != 0)
+      via &= ~8; /* debug output is slow: one call in eight */
     struct ref got;
-    one(p, m, mode, internal, buf, &got, &rs, 1);
+    one(p, m, mode, internal, buf, &got, &rs, 1, via, id);
     struct ref *w = &REF[RIDX(p, m, mode, internal)];
     n++;
     if (got.rc != w->rc || got.off != w->off || got.count != w->count ||
@@ -113,9 +173,9 @@ static void *worker(void *arg) {
       mm++;
       pthread_mutex_lock(&mu);
       if (mismatches + mm <= 50)
-        printf("M thread=%ld it=%d prog=%d mask=%d mode=%d got=%d/%d/%d/%016llx "
+        fprintf(res, "M thread=%ld it=%d prog=%d mask=%d mode=%d via=%d got=%d/%d/%d/%016llx "
                "want=%d/%d/%d/%016llx\n",
-               id, it, p, m, mode, got.rc, got.off, got.count,
+               id, it, p, m, mode, via, got.rc, got.off, got.count,
                (unsigned long long)got.hash, w->rc, w->off, w->count,
                (unsigned long long)w->hash);
       pthread_mutex_unlock(&mu);
@@ -161,14 +221,16 @@ static void *cold_worker(void *arg) {
   long mm = 0, n = 0;
   for (int it = 0; it < 3; it++) {
     struct ref got;
-    one(p, m, mode, it == 1, buf, &got, &rs, 0);
-    struct ref *w = &REF[RIDX(p, m, mode, it == 1)];
+    int via = (rand_r(&rs) >> 3) & 23; /* no debug output here: the first library call is what matters */
+    int cin = it == 1 && !(big_ext_only && strlen(prog[p]) > 8000);
+    one(p, m, mode, cin, buf, &got, &rs, 0, via, id);
+    struct ref *w = &REF[RIDX(p, m, mode, cin)];
     n++;
     if (got.rc != w->rc || got.off != w->off || got.count != w->count || got.hash != w->hash) {
       mm++;
       pthread_mutex_lock(&mu);
       if (__atomic_load_n(&cold_mm[0], __ATOMIC_RELAXED) + mm <= 10)
-        printf("M cold thread=%ld it=%d prog=%d mask=%d mode=%d delta=%ldns got=%d/%d/%d/%016llx want=%d/%d/%d/%016llx\n", id, it, p, m, mode,
+        fprintf(res, "M cold thread=%ld it=%d prog=%d mask=%d mode=%d delta=%ldns got=%d/%d/%d/%016llx want=%d/%d/%d/%016llx\n", id, it, p, m, mode,
                cold_delta_ns, got.rc, got.off, got.count, (unsigned long long)got.hash, w->rc, w->off, w->count,
                (unsigned long long)w->hash);
       pthread_mutex_unlock(&mu);
@@ -188,7 +250,7 @@ static void cold_trials(int trials, int nthreads) {
   cold_mm = mmap(NULL, 4096, PROT_READ | PROT_WRITE, MAP_SHARED | MAP_ANONYMOUS, -1, 0);
   int done = 0;
   for (int t = 0; t < trials; t++) {
-    fflush(stdout);
+    fflush(res);
     pid_t pid = fork();
     if (pid == 0) {
       cold_n = 2 + (t % (nthreads > 2 ? nthreads - 1 : 1));
@@ -202,7 +264,7 @@ static void cold_trials(int trials, int nthreads) {
         pthread_create(&th[i], NULL, cold_worker, (void *)i);
       for (int i = 0; i < cold_n; i++)
         pthread_join(th[i], NULL);
-      fflush(stdout);
+      fflush(res);
       _exit(0);
     }
     if (pid < 0) { /* fork refused (process limit, memory): not a verdict about the library, the trial is not counted */
@@ -212,12 +274,12 @@ static void cold_trials(int trials, int nthreads) {
     int st = 0;
     waitpid(pid, &st, 0);
     if (!WIFEXITED(st) || WEXITSTATUS(st) != 0) {
-      printf("E cold trial %d died: status %d\n", t, st);
+      fprintf(res, "E cold trial %d died: status %d\n", t, st);
       __atomic_fetch_add(&cold_mm[0], 1, __ATOMIC_RELAXED);
     }
     done++;
   }
-  printf("K %d %ld %ld\n", done, cold_mm[1], cold_mm[0]);
+  fprintf(res, "K %d %ld %ld\n", done, cold_mm[1], cold_mm[0]);
 }
 
 static int unhex(const char *h, char **out) {
@@ -241,6 +303,11 @@ static int unhex(const char *h, char **out) {
 int main(int argc, char **argv) {
   if (argc < 5)
     return 2;
+  res = fdopen(dup(1), "w");
+  if (!res || !freopen("/dev/null", "w", stdout))
+    return 2;
+  tdir = getenv("THREADS_DIR");
+  big_ext_only = getenv("THREADS_BIG_EXT_ONLY") != NULL;
   FILE *f = fopen(argv[1], "r");
   if (!f)
     return 2;
@@ -261,7 +328,7 @@ int main(int argc, char **argv) {
   /* stderr of the library (diagnostics of rejected lines) is noise here */
   size_t sz = sizeof(struct ref) * (size_t)nprog * NMASK * NMODE * 2;
   REF = mmap(NULL, sz, PROT_READ | PROT_WRITE, MAP_SHARED | MAP_ANONYMOUS, -1, 0);
-  fflush(stdout);
+  fflush(res);
   pid_t pid = fork();
   if (pid == 0) {
     unsigned rs = 1;
@@ -270,13 +337,13 @@ int main(int argc, char **argv) {
       for (int m = 0; m < NMASK; m++)
         for (int mode = 0; mode < NMODE; mode++)
           for (int in = 0; in < 2; in++)
-            one(p, m, mode, in, buf, &REF[RIDX(p, m, mode, in)], &rs, 0);
+            one(p, m, mode, in, buf, &REF[RIDX(p, m, mode, in)], &rs, 0, 0, 0);
     _exit(0);
   }
   int st = 0;
   waitpid(pid, &st, 0);
   if (!WIFEXITED(st) || WEXITSTATUS(st) != 0) {
-    printf("E reference child failed %d\n", st);
+    fprintf(res, "E reference child failed %d\n", st);
     return 3;
   }
   int ncold = argc > 6 ? atoi(argv[6]) : 0;
@@ -284,7 +351,7 @@ int main(int argc, char **argv) {
     /* this process has not entered the library yet (the reference was computed in the forked child above) */
     cold_trials(ncold, nthreads);
     if (iters <= 0) {
-      printf("T %d %d %d %d %ld\n", nthreads, 0, 0, 0, 0L);
+      fprintf(res, "T %d %d %d %d %ld\n", nthreads, 0, 0, 0, 0L);
       return 0;
     }
   }
@@ -297,6 +364,7 @@ int main(int argc, char **argv) {
   long okrefs = 0;
   for (int i = 0; i < nprog * NMASK * NMODE * 2; i++)
     okrefs += REF[i].rc == 0;
-  printf("T %d %d %ld %ld %ld\n", nthreads, iters, ops, mismatches, okrefs);
+  fprintf(res, "T %d %d %ld %ld %ld\n", nthreads, iters, ops, mismatches, okrefs);
+  fflush(res);
   return 0;
 }
